@@ -236,6 +236,12 @@ func (st *state) validate(instance reflect.Value, schema *Schema, callerAnns *an
 				}
 			}
 			if dynamicSchema == nil {
+				// No schema resource in the dynamic scope declares the anchor (the ref
+				// names a resource that is not on the stack): the initially resolved
+				// target stands.
+				dynamicSchema = schemaInfo.dynamicRefFallback
+			}
+			if dynamicSchema == nil {
 				return fmt.Errorf("missing dynamic anchor %q", schemaInfo.dynamicRefAnchor)
 			}
 			if err := st.validate(instance, dynamicSchema, &anns); err != nil {
@@ -674,6 +680,9 @@ func (st *state) resolveDynamicRef(schema *Schema) (*Schema, error) {
 		if ok && info.dynamic {
 			return info.schema, nil
 		}
+	}
+	if info.dynamicRefFallback != nil {
+		return info.dynamicRefFallback, nil
 	}
 	return nil, fmt.Errorf("missing dynamic anchor %q", info.dynamicRefAnchor)
 }
